@@ -258,6 +258,8 @@ func runC19(c *engine.Ctx) {
 
 	// ---- R7 ----
 	checkConfigReadPerAttempt(c, "R7")
+	// ---- R9 ----
+	checkLocalStartFailure(c, "R9")
 
 	// ---- R8 ----
 	c.Rule("R8", "every event the proxy wrapper sends to the control (start-proxy, close-proxy) is sent while Wrapper.mu is held: the phase decision and the message it causes cannot be separated by a concurrent Stop, so a stopped proxy sends no further registration")
